@@ -1,13 +1,16 @@
 import Driver.Graph
+import Driver.Mw
 /-! `godi_model`: reads the line protocol on stdin, prints one observation per line. -/
 open Driver
 
 structure St where
   g : Godi.Graph.Graph := {}
+  mw : MwD.MwSt := {}
 
 def stepLine (s : St) (line : String) : St × String :=
   match words line with
   | "g" :: rest => let (g, o) := GraphD.step s.g rest; ({ s with g := g }, o)
+  | "mw" :: rest => let (m, o) := MwD.step s.mw rest; ({ s with mw := m }, o)
   | "#" :: _ => (s, "#")
   | [] => (s, "")
   | _ => (s, "bad-op")
